@@ -969,6 +969,14 @@ def m_unpack(I, args, kwargs):
 
 for _name in ("debug", "info", "warning", "error", "exception", "critical", "log", "isEnabledFor"):
     MODELS[getattr(logging.Logger, _name)] = _noop
+
+
+def _log_exception(I, args, kwargs):
+    I.path.ghost.setdefault("g:log.exception", []).append(1)
+    return None
+
+
+MODELS[logging.Logger.exception] = _log_exception
 MODELS[logging.getLogger] = lambda I, a, k: logging.getLogger(*a, **k) if not _sym(a) else Opaque("logger")
 
 
